@@ -11,10 +11,12 @@
 (***************************************************************************)
 EXTENDS Interp, Json
 
-CONSTANTS MaxEntries, DoExport, PoolSize
+CONSTANTS MaxEntries, DoExport, PoolSize,
+          RenameInPlace     \* TRUE: the pinned commit (p.Env.Replace inside Range: a later entry may be tombstoned unvisited, F22)
 
 NamePoolAll == << <<Lit("A")>>, <<Lit("B")>>, <<Lit("a")>>, <<Lit("X")>>, <<Lit("N_"), Ref("X", "plain")>>, <<Ref("X", "brace"), Lit("S")>>,
-                 <<Ref("X", "brace")>> >>      \* a name that IS another variable's value (may already exist in the caller env)
+                 <<Ref("X", "brace")>>,        \* a name that IS another variable's value (may already exist in the caller env)
+                 <<Esc("X", "dd")>>, <<Ref("X", "plain")>> >>   \* twins: "$$X" expands to the WRITTEN name of "$X", which expands to something else
 ValPoolAll == << <<Lit("1")>>, <<Ref("A", "plain")>>, <<Lit("P-"), Ref("B", "brace"), Lit("-S")>>, <<Esc("A", "dd")>>,
                  <<Esc("X", "bs"), Lit("+"), Ref("a", "plain")>>, <<Dflt("X", "D", "empty")>>, <<Dflt("B", "D", "unset")>>,
                  <<Ref("X", "brace")>>, <<Req("B")>>, <<Dflt("A", "D", "empty"), Esc("B", "dd")>> >>
@@ -23,8 +25,8 @@ ValPool == {ValPoolAll[i] : i \in 1..(IF PoolSize < Len(ValPoolAll) THEN PoolSiz
 Env0s == { <<>>, ("A" :> "RA"), ("X" :> "RX"), ("A" :> "RA") @@ ("X" :> "RX"), ("A" :> "") @@ ("X" :> "RX"),
            ("A" :> "RA") @@ ("X" :> "A"), ("B" :> "RB") @@ ("X" :> "B") }     \* X names a variable the caller already has
 
-VARIABLES mode, prefer, block0, env0, lst, cenv, i, pc, nd, vd, intk, intv, ex, err
-vars == <<mode, prefer, block0, env0, lst, cenv, i, pc, nd, vd, intk, intv, ex, err>>
+VARIABLES mode, prefer, block0, env0, lst, cenv, i, pc, nd, vd, intk, intv, ex, err, acc
+vars == <<mode, prefer, block0, env0, lst, cenv, i, pc, nd, vd, intk, intv, ex, err, acc>>
 
 n == Len(block0)
 Entries == {[k |-> k, v |-> v] : k \in NamePool, v \in ValPool}
@@ -36,46 +38,54 @@ Init ==
     /\ \A x, y \in 1..Len(block0) : x # y => Spell(block0[x].k) # Spell(block0[y].k)
     /\ lst = [j \in 1..Len(block0) |-> P(Spell(block0[j].k), Spell(block0[j].v))]
     /\ cenv = env0 /\ i = 1 /\ pc = "expand" /\ nd = FALSE /\ vd = FALSE
-    /\ intk = "" /\ intv = "" /\ ex = FALSE /\ err = FALSE
+    /\ intk = "" /\ intv = "" /\ ex = FALSE /\ err = FALSE /\ acc = <<>>
 
 Running == i <= n /\ ~err
+\* (pinned commit) the entry the cursor stands on may have been deleted from the block by an earlier Replace: Range skips it
+Gone == RenameInPlace /\ Running /\ pc = "expand" /\ ~nd /\ ~vd /\ ~LHas(lst, Spell(block0[i].k))
+Skip == /\ Gone /\ i' = i + 1
+        /\ UNCHANGED <<mode, prefer, block0, env0, lst, cenv, pc, nd, vd, intk, intv, ex, err, acc>>
 
 ExpandName ==
-    /\ Running /\ pc = "expand" /\ ~nd
+    /\ Running /\ pc = "expand" /\ ~nd /\ ~Gone
     /\ IF Fails(mode, cenv, block0[i].k) THEN err' = TRUE /\ UNCHANGED <<intk, nd>>
        ELSE intk' = ExpandStr(mode, cenv, block0[i].k) /\ nd' = TRUE /\ UNCHANGED err
-    /\ UNCHANGED <<mode, prefer, block0, env0, lst, cenv, i, pc, vd, intv, ex>>
+    /\ UNCHANGED <<mode, prefer, block0, env0, lst, cenv, i, pc, vd, intv, ex, acc>>
 ExpandValue ==
-    /\ Running /\ pc = "expand" /\ ~vd
+    /\ Running /\ pc = "expand" /\ ~vd /\ ~Gone
     /\ IF Fails(mode, cenv, block0[i].v) THEN err' = TRUE /\ UNCHANGED <<intv, vd>>
        ELSE intv' = ExpandStr(mode, cenv, block0[i].v) /\ vd' = TRUE /\ UNCHANGED err
-    /\ UNCHANGED <<mode, prefer, block0, env0, lst, cenv, i, pc, nd, intk, ex>>
-Rewrite ==                      \* p.Env.Replace(k, intk, intv): same position, new name and value
+    /\ UNCHANGED <<mode, prefer, block0, env0, lst, cenv, i, pc, nd, intk, ex, acc>>
+Rewrite ==                      \* pinned commit: p.Env.Replace(k, intk, intv) on the block being ranged; repaired: the pair is put aside
     /\ Running /\ pc = "expand" /\ nd /\ vd
-    /\ lst' = LReplace(lst, Spell(block0[i].k), intk, intv)
+    /\ IF RenameInPlace THEN lst' = LReplace(lst, Spell(block0[i].k), intk, intv) /\ UNCHANGED acc
+       ELSE acc' = Append(acc, P(intk, intv)) /\ UNCHANGED lst
     /\ pc' = "check"
     /\ UNCHANGED <<mode, prefer, block0, env0, cenv, i, nd, vd, intk, intv, ex, err>>
 CheckExists ==
     /\ Running /\ pc = "check"
     /\ ex' = Has(mode, cenv, intk)
     /\ pc' = "write"
-    /\ UNCHANGED <<mode, prefer, block0, env0, lst, cenv, i, nd, vd, intk, intv, err>>
+    /\ UNCHANGED <<mode, prefer, block0, env0, lst, cenv, i, nd, vd, intk, intv, err, acc>>
 WriteBack ==
     /\ Running /\ pc = "write"
     /\ cenv' = IF prefer /\ ex THEN cenv ELSE Put(mode, cenv, intk, intv)
     /\ i' = i + 1 /\ pc' = "expand" /\ nd' = FALSE /\ vd' = FALSE
-    /\ UNCHANGED <<mode, prefer, block0, env0, lst, intk, intv, ex, err>>
-Next == ExpandName \/ ExpandValue \/ Rewrite \/ CheckExists \/ WriteBack
+    /\ UNCHANGED <<mode, prefer, block0, env0, lst, intk, intv, ex, err, acc>>
+Next == ExpandName \/ ExpandValue \/ Rewrite \/ CheckExists \/ WriteBack \/ Skip
 Spec == Init /\ [][Next]_vars /\ WF_vars(Next)
 
 Done == i > n \/ err
 Want == FoldBlock(mode, prefer, block0, env0)
 
-InvAtDone == Done => (IF err THEN Want.err ELSE ~Want.err /\ lst = Want.block /\ cenv = Want.env)
+Final == IF RenameInPlace THEN lst ELSE LFromItems(acc)          \* repaired: the block is rebuilt from the pairs put aside (MapFromItems)
+InvAtDone == Done => (IF err THEN Want.err ELSE ~Want.err /\ (NoCollision(mode, prefer, block0, env0) => Final = Want.block) /\ cenv = Want.env)
 InvDefinitionOrder ==            \* entries before the cursor are rewritten, the others untouched, all in place
     NoCollision(mode, prefer, block0, env0) =>     \* (colliding names are admitted only when the fold fails; which entry survives is not stated)
-    /\ Len(lst) = n
-    /\ \A j \in 1..n : j >= i /\ ~(j = i /\ pc # "expand") => lst[j] = P(Spell(block0[j].k), Spell(block0[j].v))
+    /\ (RenameInPlace => Len(lst) = n)
+    /\ (RenameInPlace => \A j \in 1..n : j >= i /\ ~(j = i /\ pc # "expand") => lst[j] = P(Spell(block0[j].k), Spell(block0[j].v)))
+    /\ (~RenameInPlace => lst = [j \in 1..n |-> P(Spell(block0[j].k), Spell(block0[j].v))])     \* the block itself is untouched until the end
+    /\ (~RenameInPlace /\ ~err => Len(acc) = (IF pc = "expand" THEN i - 1 ELSE i))
 InvRuntimePrecedence == prefer => \A x \in DOMAIN env0 : x \in DOMAIN cenv /\ cenv[x] = env0[x]
 Termination == <>Done
 
